@@ -87,6 +87,7 @@ package overloader
 //@   ensures[one-refill-goroutine-per-ticker] ghost.refillSpawns == old(ghost.refillSpawns) + (q.ticker != old(q.ticker) ? 1 : 0)
 //@   ensures[interval-change-replaces-ticker] qpsInterval != old(q.interval) ==> q.ticker != old(q.ticker)
 //@   ensures[limit-installed] q.limit == maxQPS && q.once >= 1
+//@   ensures[interval-installed] q.interval == qpsInterval
 
 // ---- C18: the plugin hooks --------------------------------------------------
 // A session holds a slot iff it is a key of o.slotHolders, whose value is the
@@ -139,8 +140,50 @@ package overloader
 // admitted stay counted against the new limit
 //@ func (*Overloader).updateConnLimiter
 //@   property C18
-//@   requires limitConfig != nil && (o.connLimiter != nil ==> o.limitConfig != nil && o.connLimiter.lim == o.limitConfig.MaxConn)
+//@   requires[recorded-condition-matches-the-limiter] limitConfig != nil && (o.connLimiter != nil ==> o.limitConfig != nil && o.connLimiter.lim == o.limitConfig.MaxConn)
+//@   modifies o.connLimiter, allof(type(connLimiter)), lockset
+//@   ensures[locks-restored] sameLocks()
 //@   let l0 = old(o.connLimiter)
 //@   ensures[limiter-kept] l0 != nil && limitConfig.MaxConn > 0 ==> o.connLimiter == l0 && l0.tmp == old(l0.tmp) && l0.now == old(l0.now) && l0.#holders == old(l0.#holders)
 //@   ensures[limit-applied] limitConfig.MaxConn > 0 ==> o.connLimiter != nil && o.connLimiter.lim == limitConfig.MaxConn
 //@   ensures[unlimited] limitConfig.MaxConn <= 0 ==> o.connLimiter == nil
+
+// ---- C18: a run-time change of the limits is what the limiters enforce ------------------
+// recorded condition and installed limiters agree (cfgInv) before and after Update;
+// the update helpers compare the new condition with the RECORDED one, so the new
+// condition is recorded only after they have run.
+//@ spec fn cfgInv(o *Overloader) bool = (o.connLimiter != nil ==> o.limitConfig != nil && o.connLimiter.lim == o.limitConfig.MaxConn) && (o.totalQPSLimiter != nil ==> o.limitConfig != nil && o.totalQPSLimiter.limit == o.limitConfig.MaxTotalQPS && o.totalQPSLimiter.interval == o.limitConfig.QPSInterval && o.totalQPSLimiter.ticker != nil && !o.totalQPSLimiter.ticker.#stopped && o.totalQPSLimiter.once >= 1)
+//@ func newQPSLimiter
+//@   property C18
+//@   flags libframe
+//@   requires?[interval-divides-a-second] qpsInterval > 0 && qpsInterval <= 1000000000
+//@   requires?[positive-limit] maxQPS >= 1
+//@   modifies ghost.refillSpawns
+//@   ensures[fresh-limiter-with-the-given-limit] fresh(result) && result.limit == maxQPS && result.interval == qpsInterval && result.once >= 1 && result.ticker != nil && !result.ticker.#stopped
+//@ func (*Overloader).updateTotalQPSLimiter
+//@   property C18
+//@   flags libframe
+//@   requires[recorded-condition-matches-the-limiter] limitConfig != nil && (o.totalQPSLimiter != nil ==> o.limitConfig != nil && o.totalQPSLimiter.limit == o.limitConfig.MaxTotalQPS && o.totalQPSLimiter.interval == o.limitConfig.QPSInterval && o.totalQPSLimiter.ticker != nil && !o.totalQPSLimiter.ticker.#stopped && o.totalQPSLimiter.once >= 1)
+//@   modifies o.totalQPSLimiter, allof(type(qpsLimiter)), allof(type(time.Ticker)), ghost.refillSpawns, lockset
+//@   ensures[rate-limit-applied] limitConfig.MaxTotalQPS > 0 ==> o.totalQPSLimiter != nil && o.totalQPSLimiter.limit == limitConfig.MaxTotalQPS && o.totalQPSLimiter.interval == limitConfig.QPSInterval
+//@   ensures[unlimited] limitConfig.MaxTotalQPS <= 0 ==> o.totalQPSLimiter == nil
+//@   ensures[locks-restored] sameLocks()
+// the per-handler limiters live in a map of their own: rebuilding them touches neither
+// the recorded condition nor the connection / total-rate limiters
+//@ trusted (*Overloader).updateHandlerLimiter
+//@   property C18
+//@   flags libframe
+//@   requires limitConfig != nil
+//@   modifies allof(type(qpsLimiter)), allof(type(time.Ticker)), ghost.refillSpawns, lockset, mapof(o.handlerQPSLimiter)
+//@   ensures[locks-restored] sameLocks()
+// (assumption: a per-handler limiter is never the total-rate limiter object - each is
+// created by its own newQPSLimiter call and stored in one place only)
+//@   ensures[total-limiter-is-another-object] old(o.totalQPSLimiter) != nil ==> old(o.totalQPSLimiter).limit == old(o.totalQPSLimiter.limit) && old(o.totalQPSLimiter).interval == old(o.totalQPSLimiter.interval)
+//@ func (*Overloader).Update
+//@   property C18
+//@   flags libframe frame-unchecked
+//@   requires[recorded-condition-matches-the-limiters] cfgInv(o)
+//@   modifies fields(o), allof(type(connLimiter)), allof(type(qpsLimiter)), allof(type(time.Ticker)), ghost.refillSpawns, lockset, mapviews
+//@   ensures[new-connection-limit-enforced] newLimitConfig.MaxConn > 0 ==> o.connLimiter != nil && o.connLimiter.lim == newLimitConfig.MaxConn
+//@   ensures[new-rate-limit-enforced] newLimitConfig.MaxTotalQPS > 0 ==> o.totalQPSLimiter != nil && o.totalQPSLimiter.limit == newLimitConfig.MaxTotalQPS && o.totalQPSLimiter.interval == newLimitConfig.QPSInterval
+//@   ensures[condition-recorded] o.limitConfig != nil && o.limitConfig.MaxConn == newLimitConfig.MaxConn && o.limitConfig.MaxTotalQPS == newLimitConfig.MaxTotalQPS && o.limitConfig.QPSInterval == newLimitConfig.QPSInterval
